@@ -1042,11 +1042,37 @@ impl Model {
             r.needs_reannounce = false;
             self.recs.insert(k, r);
         }
+        let mut refunded_users: BTreeSet<u32> = BTreeSet::new();
         for k in completed {
             if let Some(r) = self.recs.remove(&k) {
                 if let Some(m) = self.users.get_mut(&k.0) {
                     let s = slots_for(r.blob.len());
                     m.available = m.available.wrapping_add(s);
+                    refunded_users.insert(k.0);
+                }
+            }
+        }
+        // C04: "its slots refunded" includes the copy that survives a restart -- the refund of every tracker completed by
+        // this block must be in the users table when the block has been handled (judged here, before the general
+        // three-copies comparison of C07 adopts the persisted number).
+        if let Some(db) = db {
+            for u in refunded_users {
+                if let Some(m) = self.users.get(&u) {
+                    if m.tainted {
+                        continue;
+                    }
+                    if let Some(row) = db.users.iter().find(|r| r.user_id == m.pk) {
+                        if row.available != m.available {
+                            out.push(viol(
+                                "C04",
+                                "refund_not_persisted",
+                                format!(
+                                    "block {height}: trackers of user {u} completed (100 confirmations): the persisted balance is {} where every refund gives {}",
+                                    row.available, m.available
+                                ),
+                            ));
+                        }
+                    }
                 }
             }
         }
